@@ -394,12 +394,15 @@ impl Executor {
                 },
                 OpCode::VPush => self.do_binop(|vec, item| {
                     let mut vec: CatVec<Value, 32> = vec.into_vector()?;
+                    // one more element must be representable (see VAppend): fail instead of overflowing the length counter
+                    vec.len().checked_add(1)?;
                     vec.push_back(item);
 
                     Some(Value::Vector(vec))
                 })?,
                 OpCode::VCons => self.do_binop(|item, vec| {
                     let mut vec: CatVec<Value, 32> = vec.into_vector()?;
+                    vec.len().checked_add(1)?;
                     vec.insert(0, item);
 
                     Some(Value::Vector(vec))
@@ -411,12 +414,14 @@ impl Executor {
                 OpCode::BPush => self.do_binop(|vec, val| {
                     let mut vec: CatVec<u8, 256> = vec.into_bytes()?;
                     let val: U256 = val.into_int()?;
+                    vec.len().checked_add(1)?;
                     vec.push_back(*val.low() as u8);
 
                     Some(Value::Bytes(vec))
                 })?,
                 OpCode::BCons => self.do_binop(|item, vec| {
                     let mut vec: CatVec<u8, 256> = vec.into_bytes()?;
+                    vec.len().checked_add(1)?;
                     vec.insert(0, item.into_truncated_u8()?);
 
                     Some(Value::Bytes(vec))
